@@ -157,7 +157,9 @@ pub fn digest(sess: &Sess, probes: &ProbeSet, ans_hint: bool, reimport: &[String
     // everything else a front end can ask the session (listing, function and unit metadata,
     // completions, base units): one hash line; the detailed lines are kept per thread so that a
     // mismatch can be reported precisely (see `first_difference`)
-    out.push(env_line(sess));
+    if std::env::var_os("NBSIM_NO_ENV").is_none() {
+        out.push(env_line(sess));
+    }
 
     // re-import probes: importing the module (again) on a clone must have the same effect
     for m in reimport {
